@@ -11,7 +11,9 @@ EXPLANATION = (
     "definitions, is rewritten with From(retain_type(<old id at the same place>))), confinement "
     "(nothing but ids is written into the moved entry), ordering by dominance (lookup first, "
     "slot reservation and mapping insert before any recursion, final store post-dominates), "
-    "and the driver loop (ascending ids, retain_type exactly under filter(id))."
+    "and the driver (ascending ids, retain_type exactly under filter(id); as a loop or as range.filter(..).for_each(..)). "
+    "Equivalent spellings are recognised: a local `remap(&mut id, ..)` helper that is `*p = From(retain_type(p.id, ..))`, the BTreeMap entry API "
+    "for the memo, mem::swap or a destructuring pattern for taking the entry out, loops over filter_map / flat_map adapters."
 )
 
 ROOT_ADT = "scale_info::portable::PortableType"
